@@ -18,6 +18,7 @@ fi
 cd /verif
 git -C /repo worktree remove --force $W
 git -C /repo apply "$SD/patch.diff" || exit 9
+export PYVC_EVIDENCE_DIR=/tmp/sv_evidence   # never overwrite the committed evidence with a run on a changed tree
 for P in "$@"; do
   ./check $P > /tmp/sv_$NAME.$P.log 2>&1; RC=$?
   echo "check $P exit=$RC"; grep -E "VIOLATION|UNDECIDED|FAULT|KNOWN" /tmp/sv_$NAME.$P.log | head -5
